@@ -1,4 +1,5 @@
 import RactorModel.Model.Session
+import RactorModel.Model.Codec
 import Driver.Common
 
 /-! Driver for the `Auth` / `Session` models (C17). Ops are written by
@@ -15,11 +16,12 @@ E-PURE (state machines of `auth.rs`), states and messages `:`-separated:
   `authz adv=<pids> pid=<p> rem=<live remotable pids>` → `<0|1> adv=<pids afterwards>`   (`authorized_local_actor`)
 
 E-LTS (a real `NodeServer`, the harness is the peer):
-  `node <name> transitive=<0|1>`                           → `ok`        (fresh NodeServer; forgets all sessions)
+  `node <name> transitive=<0|1> limit=<max_inbound_frame_size>` → `ok`        (fresh NodeServer; forgets all sessions)
   `open <k> <server|client> thisname= thisconn= connid= transitive=` → `sent=[…]`
-  `send <k> <frame> check= elected= fresh= pids= groups= rem= sessions= h=` → observation
+  `send <k> <frame> len=<payload bytes> check= elected= fresh= pids= groups= rem= sessions= h=` → observation
   `batch <k> <frame>+<frame>+… env…`                       → observation (frames written back-to-back)
   `local <k> <spawn|term> <pid> <rem 0|1> groups=<scope/group/pid;…>` → observation
+  `declare <k> <declared len> <n payload bytes sent>`      → observation (header only / partial payload)
   `garbage <k> <hex>` / `drop <k>`                         → observation (transport closed)
   `survived`                                               → `1` (a fresh session authenticated after a wire fault on another one)
   `connects`                                               → number of TCP connections the node opened to the advertised address
@@ -202,6 +204,8 @@ structure Ses where
 
 structure St where
   sessions : List (Nat × Ses) := []
+  /-- the node's configured `max_inbound_frame_size` -/
+  limit : Nat := Codec.defaultMaxFrame
   /-- transitive `connect` effects of the current node (all sessions) -/
   connects : Nat := 0
   anyGood : Bool := false
@@ -393,6 +397,46 @@ def violationOracle (ses : Ses) (fr : Frame D) (impl : String) : List String :=
     else []
   | _ => []
 
+/-- The frame layer in front of the session (`Codec.checkedFrameLength`, the model of
+`checked_frame_length`, with the node's CONFIGURED limit): is a frame declaring `len` payload
+bytes read at all? -/
+def admitted (limit len : Nat) : Bool :=
+  match Codec.checkedFrameLength len limit with
+  | .ok _ => true
+  | .error _ => false
+
+/-- The C19 clause "a frame over the configured limit closes the session without reading it":
+the session must be dead and must not have answered. -/
+def overLimitOracle (impl : String) : List String :=
+  match parseObs? impl with
+  | some o => if o.alive || !o.sent.isEmpty || !o.probe.isEmpty then ["frame-over-configured-limit-accepted"] else []
+  | none => []
+
+def lensOf (ws : List String) : List Nat :=
+  match getField ws "len" with
+  | some l => (splitOnChar l '+').filterMap (·.toNat?)
+  | none => []
+
+/-- What the real `GetSessions` must answer according to the model: the live sessions that
+emitted `ConnectionAuthenticated`, with the name and connection string they registered. The
+`EnumerateNodeSessions` reply and the transitive `NodeSessions` handling are predicted from
+this, not from what the node reported. -/
+def modelSessions (st : List (Nat × Ses)) : List (String × String) :=
+  let l := st.filterMap (fun (_, s) => if s.authed && !s.st.stopped then s.st.name else none)
+  (l.toArray.qsort (fun a b => a.1 < b.1 || (a.1 == b.1 && a.2 < b.2))).toList
+
+/-- Clause: every peer named in a `NodeSessions` reply belongs to a session on which the harness
+presented the right digest. -/
+def enumOracle (st : List (Nat × Ses)) (impl : String) : List String :=
+  match parseObs? impl with
+  | some o =>
+    let named := o.sent.flatMap (fun f => match colon f with
+      | ["nodesessions", l] => (parsePeers l).map (·.1)
+      | _ => [])
+    if named.all (fun n => st.any (fun (_, s) => s.oGood && (s.st.name.map (·.1)) == some n)) then []
+    else ["unauthenticated-peer-listed-to-others"]
+  | none => []
+
 def closeTransport (ses : Ses) : Ses :=
   { ses with st := { ses.st with stopped := true } }
 
@@ -426,7 +470,8 @@ def step (st : St) (op impl : String) : St × StepOut :=
     -- oracle on the implementation's answer: allowed only if advertised and a live remotable actor
     let orc := if impl.startsWith "1" && !(adv.contains pid && rem.contains pid) then ["delivery-to-unadvertised-pid"] else []
     (st, { model := s!"{if ok then 1 else 0} adv={showNats (sortNats s1.advertised)}", oracle := orc, nontrivial := true })
-  | "node" :: _ => ({ sessions := [] }, { model := "ok" })
+  | "node" :: _ =>
+    ({ sessions := [], limit := ((getField ws "limit").bind (·.toNat?)).getD Codec.defaultMaxFrame }, { model := "ok" })
   | ["survived"] =>
     -- after a framing fault on one session a fresh session must still authenticate (C19)
     (st, { model := "1", oracle := if impl == "1" then [] else ["node-wedged-after-wire-fault"], nontrivial := true })
@@ -449,16 +494,38 @@ def step (st : St) (op impl : String) : St × StepOut :=
       let sent := if cfg.isServer then "" else showFrame (.auth (.name ⟨cfg.thisName, cfg.thisConn, cfg.connId⟩))
       (st.set k ses, { model := s!"sent=[{sent}]" })
     | none => (st, { model := "bad-op" })
+  | "declare" :: k :: d :: n :: _ =>
+    match k.toNat?.bind st.get?, d.toNat?, n.toNat? with
+    | some ses, some declared, some n =>
+      if admitted st.limit declared then
+        -- within the limit: the reader waits for the rest of the payload (nothing else happens);
+        -- a complete payload of filler bytes does not decode and closes the transport
+        let ses' := if n < declared then ses else closeTransport ses
+        let (sesO, orc) := oracleOn ses' none tbl [] impl
+        (st.set (k.toNat?.getD 0) sesO, { model := showObs ses' [], oracle := orc, nontrivial := true })
+      else
+        let ses' := closeTransport ses
+        let (sesO, orc) := oracleOn ses' none tbl [] impl
+        (st.set (k.toNat?.getD 0) sesO,
+         { model := showObs ses' [], oracle := orc ++ (if ses.st.stopped then [] else overLimitOracle impl), nontrivial := true })
+    | _, _, _ => (st, { model := "bad-op" })
   | "send" :: k :: f :: _ =>
     match k.toNat?.bind st.get?, parseFrame? f with
     | some ses, some fr =>
-      let env := parseEnv ws
+      if !(lensOf ws).all (admitted st.limit) then
+        -- the frame is over the configured limit: rejected on its header, the transport closes
+        let ses' := closeTransport ses
+        let (sesO, orc) := oracleOn ses' none tbl [] impl
+        (st.set (k.toNat?.getD 0) sesO,
+         { model := showObs ses' [], oracle := orc ++ (if ses.st.stopped then [] else overLimitOracle impl), nontrivial := true })
+      else
+      let env := { parseEnv ws with sessions := some (modelSessions st.sessions) }
       let (s', eff) := Session.handle (Hof tbl) ses.cfg ses.st env (.frame fr)
       let ses' : Ses := { ses with st := s', pg := applyPg ses.pg eff,
                                      authed := ses.authed || eff.contains Effect.authenticated }
       let rem := ((getField ws "rem").bind natList?).getD []
       let (sesO, orc1) := oracleOn ses' (some fr) tbl rem impl
-      let orc := orc1 ++ violationOracle ses fr impl
+      let orc := orc1 ++ violationOracle ses fr impl ++ enumOracle ((st.set (k.toNat?.getD 0) sesO).sessions) impl
       let nt := eff.any (·.gated) || s'.stopped
       let nc := (eff.filter (fun e => match e with | .connect _ => true | _ => false)).length
       ({ st.set (k.toNat?.getD 0) sesO with connects := st.connects + nc },
@@ -467,6 +534,7 @@ def step (st : St) (op impl : String) : St × StepOut :=
   | "batch" :: k :: fs :: _ =>
     match k.toNat?.bind st.get?, (splitOnChar fs '+').mapM parseFrame? with
     | some ses, some frames =>
+      if !(lensOf ws).all (admitted st.limit) then (st, { model := "over-limit-frame-in-burst-not-modelled" }) else
       let env := parseEnv ws
       let (s', eff) := frames.foldl (fun (acc : SState D × List (Effect D)) fr =>
         let (s2, e2) := Session.handle (Hof tbl) ses.cfg acc.1 env (.frame fr)
